@@ -15,6 +15,7 @@ independence of the encoding's meaning (its model set on the user variables) fro
 against the same script run alone in a fresh child.
 """
 import itertools
+import json
 import os
 
 from sim import abort as abortmod
@@ -194,7 +195,21 @@ def gen_case(r, index, tier):
             ops[i]["fault"] = {"kind": "abort", "line_event": r.randint(1, hi)}
             if r.chance(0.4):  # land inside the CNF generation rather than the diagram construction
                 ops[i]["fault"] = {"kind": "abort", "line_event": r.randint(1, 80), "only": "satmanager.py"}
-    return {"engine": "c07", "nvars": nvars, "nclients": nclients, "ops": ops}
+    # windows: the same left-hand side bounded from both sides (the second constraint reuses the first one's expression)
+    for c in range(nclients):
+        idx = [i for i, o in enumerate(ops) if o["c"] == c and o["op"] == "pb" and o["cmp"] in (">=", "<=")]
+        if idx and r.chance(0.4):
+            i = r.choice(idx)
+            o = ops[i]
+            other = "<=" if o["cmp"] == ">=" else ">="
+            lv = r.randint(0, 3)
+            w = dict(o, cmp=other)
+            if o["rhs"][0] == "const":
+                w["rhs"] = ["const", o["rhs"][1] + (lv if other == "<=" else -lv)]
+            w.pop("fault", None)
+            ops.insert(i + 1, w)
+    return {"engine": "c07", "nvars": nvars, "nclients": nclients, "ops": ops,
+            "reuse": r.weighted([(None, 3), ("own", 3), ("shared", 4)])}
 
 
 # --------------------------------------------------------------------------- shrinking interface
@@ -322,6 +337,7 @@ class _Client:
         self.dead = False
         self.pb_seen = []
         self.diverged = False  # set once a model-set mismatch was reported for this manager
+        self.cache = None
         # independent solver for projection
         self.names = {}
         self.solver = _Solver()
@@ -340,8 +356,18 @@ class _Client:
         return v if l[1] else -v
 
     def build(self, t, style=0):
-        """Builds the library object for an expression tree through the operator algebra.
-        Always returns an Expr."""
+        """Builds the library object for an expression tree through the operator algebra.  Always returns an Expr.
+        With an expression cache (self.cache, possibly shared by all managers of the run) the object built for a subtree is
+        reused wherever the same subtree occurs again - in a later constraint, in the other side of a window, in another
+        manager, in evalexpr after a solve: the algebra promises new objects, so reuse must be harmless."""
+        if self.cache is None:
+            return self._build(t, style)
+        key = (json.dumps(t), style)
+        if key not in self.cache:
+            self.cache[key] = self._build(t, style)
+        return self.cache[key]
+
+    def _build(self, t, style=0):
         E = _pb.Expr
         k = t[0]
         if k == "lit":
@@ -483,12 +509,17 @@ def _simulate(case, only_client=None, collect=None):
         probes[name] = probes.get(name, 0) + n
 
     per_post_canon = {}
+    shared_cache = {}
     for seq, o in enumerate(case["ops"]):
         c = o["c"]
         if only_client is not None and c != only_client:
             continue
         if c not in clients:
             clients[c] = _Client(c, nvars)
+            if case.get("reuse") == "shared":
+                clients[c].cache = shared_cache
+            elif case.get("reuse") == "own":
+                clients[c].cache = {}
         cl = clients[c]
         kind = o["op"]
         if cl.dead:
